@@ -73,8 +73,14 @@ func c14Specials() []c14Input {
 		mk("x := [1 2 3]\nfor e := range x\n    print e\n    x[0] = e\nend\nprint x (len x) (typeof x)\n"),
 		mk("s := \"\"\nfor i := range 5\n    s = s + (sprint i)\n    print s (upper s) (len s)\nend\n"),
 		mk("func g:num a:num b:num\n    return a + b\nend\nprint (g (g 1 2) (g 3 4))\nprint (g 1 (g 2 (g 3 4)))\n"),
-		// a stop request that arrives inside any operand position ends the run there: calls in index, slice bounds, map values, operators, assertions, arguments, conditions, ranges, targets
-		{Src: "func n:num\n    print \"n\"\n    return 2\nend\ns := \"abcdef\"\na := [1 2 3 4]\nx:any\nwhile true\n    print s[(n):(n)+1] s[(n)] a[(n)-2:(n)] a[:(n)] a[(n):]\n    print {k:(n)}.k [(n)][0] -(n) !((n) == 1) (n)+(n)*(n) ((n) < 3 and (n) > 1)\n    x = (n)\n    print x.(num) (len [(n) (n)])\n    a[(n)] = (n)\n    if (n) == 2\n        for i := range (n) (n)+2 (n)-1\n            print i\n        end\n    else if (n) == 3\n        print \"no\"\n    end\n    for e := range a[(n):]\n        print e\n    end\nend\n", Nested: true},
+		// a stop request that arrives inside any operand position ends the run there. Each statement has a call as the LAST thing evaluated
+		// before its effect, so a dropped stop shows as an effect after the stop: index, both slice bounds, map values, array elements,
+		// unary and binary operands, short-circuit operands, arguments, assignment values and targets, conditions, range bounds
+		{Src: "func n:num\n    return 2\nend\ns := \"abcdef\"\na := [1 2 3 4]\nm := {k:0}\nx:any\nwhile true\n    print s[1:(n)]\n    print s[(n):]\n    print s[(n)]\n    print a[1:(n)]\n    print a[(n):]\n    print a[(n)]\n" +
+			"    print {k:(n)}.k\n    print [(n)]\n    print -(n)\n    print 1+(n)\n    print (n)*2\n    print !((n) == 2)\n    print ((n) == 2 and (n) == 2)\n    print (false or (n) == 2)\n    print (len [(n)])\n" +
+			"    x = (n)\n    print x\n    a[(n)] = 5\n    print a\n    a[0] = (n)\n    print a\n    m.k = (n)\n    print m\n    m[(sprint (n))] = 1\n    print m\n" +
+			"    if (n) == 2\n        print \"if\"\n    end\n    if (n) == 3\n        print \"no\"\n    else if (n) == 2\n        print \"elif\"\n    end\n    for i := range (n)\n        print \"i\" i\n    end\n" +
+			"    for i := range 1 (n)\n        print \"j\" i\n    end\n    for i := range 0 4 (n)\n        print \"k\" i\n    end\n    for e := range a[:(n)]\n        print e\n    end\n    y := s[:(n)]\n    print y\nend\n", Nested: true},
 		mk("cnt := 0\nprint \"top\"\non key k:string\n    cnt = cnt + 1\n    for i := range 3\n        print k cnt i\n    end\nend\n",
 			c15Event{"key", []any{"a"}}, c15Event{"key", []any{"b"}}),
 		mk("print \"top\"\non animate\n    while true\n        print \"tick\"\n    end\nend\n", c15Event{"animate", []any{16.0}}),
